@@ -298,6 +298,26 @@ Section Callbacks.
       rewrite Nat.eqb_refl; cbn [andb]; unfold incr_bay_chan_ncallbacks_at; cbn [is_null negb andb];
       (eexists; split; [reflexivity|reflexivity]).
   Qed.
+  (* bay_add_cb(.., cb_input, input, 0): the callback object is created DISABLED: no callback list changes; the enabled flag
+     of input i of mux m (BayDefs keeps it in mx_en) is written 0, which it already is after mux_init *)
+  Lemma update_id {A} (l : list A) i x : nth_error l i = Some x -> update l i x = l.
+  Proof. revert i. induction l as [|a l IH]; intros [|i] H; simpl in *; try discriminate; [congruence|]. f_equal. apply IH. exact H. Qed.
+
+  Theorem add_input_cb_disabled_from_source st c m i mx : bn_alloc_ok sx = true -> valid_chan st c = true ->
+    nth_error (B.b_muxes (bs_bay st)) m = Some mx -> nth_error (B.mx_en mx) i = Some false ->
+    exists st', G.bay_add_cb (Some tt) G.c_BAY_CB_DIRTY (Some (CReg c)) (Some FInput) (Some (VInput m i)) 0 sx st = Ok (Some CbNew, st') /\
+                bs_bay st' = bs_bay st.
+  Proof.
+    intros Ha Hv Hm He. unfold G.bay_add_cb. munf. cbn [is_null negb get_chan__name find_bay_chan]. rewrite Hv. cbn [is_null negb].
+    unfold calloc_ptr_cb. rewrite Ha. cbn [is_null negb].
+    unfold set_bay_cb_func, set_bay_cb_arg, set_bay_cb_bchan, set_bay_cb_type, set_bay_cb_enabled, upd_new.
+    repeat (cbn [resolve bs_newcb with_newcb nc_func nc_arg nc_bchan nc_type nc_enabled newcb0 Z.eqb negb what_of]).
+    change (cast_int32 G.c_BAY_CB_DIRTY) with 0.
+    repeat (cbn [resolve bs_newcb with_newcb nc_func nc_arg nc_bchan nc_type nc_enabled newcb0 Z.eqb negb what_of bs_bay]).
+    rewrite Hm. cbn [Z.eqb negb]. eexists; split; [reflexivity|].
+    cbn [bs_bay with_bay with_newcb]. rewrite (update_id _ _ _ He).
+    unfold B.set_mux, B.mux_with_en. destruct mx; cbn. rewrite (update_id _ _ _ Hm). destruct (bs_bay st); reflexivity.
+  Qed.
 End Callbacks.
 
 (* dirty_ok follows from the precondition of C06_propagate_fuel (BayPropagate.Pre: Shape, Cbs, clean outputs, NoDup level-0
